@@ -174,7 +174,10 @@ type Global struct {
 	builtinMts map[int]LValue
 	tempFiles  []*os.File
 	gccount    int32
-	verif      verifGlobal
+	// loading is what require puts into package.loaded while a module is
+	// being loaded (and what a failed load leaves there)
+	loading *LUserData
+	verif   verifGlobal
 }
 
 type LState struct {
